@@ -214,6 +214,8 @@ class ExecMixin(object):
             for i, el in enumerate(target.elts):
                 if value[0] == "tuple" and i < len(value[1]):
                     item = value[1][i]
+                elif value[0] == "nt" and i < len(value[2]):
+                    item = value[2][i][1]
                 else:
                     item = ("item", value, i)
                 nxt = []
